@@ -564,3 +564,8 @@ func (p *sx) val() any {
 		panic("bad scalar " + w)
 	}
 }
+
+
+// FromAST converts a parsed program into a printable tree (no source-spelling
+// hints: only use it for programs whose literals need none).
+func FromAST(stmts []ast.Statement) *Node { return DumpList(stmts, nil) }
